@@ -8,7 +8,7 @@ if [ "$1" = "-t" ]; then TIER="$2"; shift 2; fi
 SCR="$(mktemp -d "${TMPDIR:-/tmp}/verif-seeded-XXXXXX")"
 trap 'rm -rf "$SCR"' EXIT
 names=("$@")
-if [ ${#names[@]} -eq 0 ]; then for d in seeded/*/; do names+=("$(basename "$d")"); done; fi
+if [ ${#names[@]} -eq 0 ]; then for d in seeded/[A-Z]*/; do names+=("$(basename "$d")"); done; fi
 printf "%-16s %-5s %-8s %s\n" SEEDED PROP RESULT DETAIL
 for n in "${names[@]}"; do
   prop="${n%%-*}"
